@@ -2,7 +2,7 @@ SPEC = {
     "id": "C24",
     "props_module": "NDB.Props.C24",
     "corr_modules": ["NDB.Corr.C24"],
-    "theorems": ["C24_spec_is_sequential", "C24_refuted", "C24_full_refuted", "C24_creates_only"],
+    "theorems": ["C24_spec_is_sequential", "C24_refuted", "C24_full_refuted", "C24_creates_only", "C24_disjoint_footprints"],
     "allowed_axioms": [],
     "harness_pkg": "hx_txn",
     "harness_bin": "c24",
@@ -26,9 +26,9 @@ SPEC = {
     ],
     "manifest": {
         "category": "proof",
-        "text": "Spec: a transaction is the sequential composition of its statements (theorem C24_spec_is_sequential: S_txn = fold of auto-commit executions, for all databases and sequences). The code evaluates every statement of an explicit transaction against the last committed snapshot: refuted with a vm_compute witness (CREATE then MATCH..SET, both succeed, the SET is lost; MERGE after CREATE duplicates; DELETE of a node connected earlier in the transaction is not refused) — K-C24-snapshot; proved equal to the spec for transactions of CREATE statements. Correspondence: model vs implementation on every generated transaction and on the same statements run one by one; direct oracle: transaction vs sequential run on identical databases.",
+        "text": "Spec: a transaction is the sequential composition of its statements (theorem C24_spec_is_sequential: S_txn = fold of auto-commit executions, for all databases and sequences). The code evaluates every statement of an explicit transaction against the last committed snapshot: refuted with a vm_compute witness (CREATE then MATCH..SET, both succeed, the SET is lost; MERGE after CREATE duplicates; DELETE of a node connected earlier in the transaction is not refused) — K-C24-snapshot; proved equal to the spec for every transaction in which no statement reads a key touched by the buffer of earlier statements (C24_disjoint_footprints; touched = keys of the nodes the buffered operations create, update, delete or connect), and for transactions of CREATE statements. Correspondence: model vs implementation on every generated transaction and on the same statements run one by one; direct oracle: transaction vs sequential run on identical databases.",
         "design_ref": "DESIGN.md §5 C13 / C24 / C07 transactions",
-        "level_note": "Trusted: Coq kernel; hand-written model tied to the code by sampled correspondence; the conditional theorem covers only CREATE-only transactions (a footprint-disjointness theorem is not proved).",
+        "level_note": "Trusted: Coq kernel; hand-written model tied to the code by sampled correspondence; the harness's known-finding predicate is the syntactic over-approximation (keys mentioned) of the theorem's footprint (keys touched); touched ⊆ mentioned is not proved.",
         "technique": "Rocq proof (induction over statement sequences, fold_left_app) + vm_compute witnesses + differential run through the C API",
     },
 }
